@@ -40,6 +40,8 @@ func familyFor(obligation, def string) string {
 		{"rewriter.yieldRewriter.gensym", "rw-determinism"}, {"scan.rw-symcnt-frame", "rw-determinism"}, {"scan.rw-per-file-rewriter", "rw-determinism"},
 		{"scan.rw-no-package-state", "rw-determinism"}, {"scan.rw-no-map-iteration", "rw-determinism"},
 		{"rewriter.", "rw-samples"},
+		// the rest of the runtime: combinators and generator protocol against the reference interpreter, whatever the property
+		{"seq.", "seq-diff"},
 	}
 	for _, r := range rules {
 		if strings.HasPrefix(obligation, r.prefix) {
